@@ -42,8 +42,10 @@ Definition decimal_value (s : bytes) : N := fold_left (fun acc c => acc * 10 + (
 Definition array_index (t : bytes) : option N :=
   match t with
   | [] => None
-  | [48] => Some 0
-  | c :: r => if is_digit19 c && forallb is_digit r then Some (decimal_value t) else None
+  | c :: r =>
+    if (c =? 48) && (match r with [] => true | _ => false end) then Some 0             (* "0" *)
+    else if is_digit19 c && forallb is_digit r then Some (decimal_value t)             (* %x31-39 *(%x30-39) *)
+    else None
   end.
 
 Definition member (name : bytes) (m : list (bytes * value)) : option value :=
